@@ -17,7 +17,7 @@ LEVEL_TEXT = ("Bounded verification by symbolic execution of the real assembly c
 LEVEL_NOTE = ("Bounds: m<=2 modules quick / m<=3 thorough, 2-nt symbolic overhangs, one cited feature + one feature with symbolic "
               "coordinates per record, 1 reference per record (shared or private), fault position 0..m+1. An absent reference "
               "list is equivalent to an empty one. Trusted: z3, CPython, symx models.")
-LEVEL_NOTE_EXTRA = 'fault kinds: InvalidSequence / RuntimeError from a fragment extraction, out-of-range or malformed citation after a well-formed one; fault position case-split for m>=2; aliased inputs (same module object twice, two features sharing one citation list).'
+LEVEL_NOTE_EXTRA = 'fault kinds: InvalidSequence / RuntimeError from a fragment extraction, out-of-range or malformed citation after a well-formed one; fault position case-split for m>=2; aliased inputs (same module object twice, two features sharing one citation list). Also: all records under one identifier; citation qualifiers in lists, tuples or bare strings; match spans starting at the origin and one turn later; per-letter annotations on the inputs; references with source spans.'
 TECHNIQUE = "bounded symbolic execution of the real Python source (symx) with z3 over symbolic overhang graphs and fault positions; deep before/after snapshots; replay on the real stack"
 EXPLANATION = ("all outcome classes of assemble() arise from one symbolic overhang graph; a fault is injected at a symbolic "
                "position; purity is a snapshot equality asserted on every path")
